@@ -1,2 +1,181 @@
-use crate::ReplaySrc;
-pub fn register(_v: &mut Vec<(&'static str, fn(&mut ReplaySrc))>) {}
+//! C06 — signature encodings: 65-byte compact recoverable form, DER, DER+flag.
+use crate::{cov, okf, ReplaySrc, Src};
+use bsv::{RecoveryInfo, SigHash, SighashSignature, Signature};
+
+/// Every 65-byte string either is refused or parses to a signature whose compact
+/// re-serialisation is the input (same r, s, recovery id and compression marker);
+/// headers outside 27..=34 are refused; the header is 27 + recid + 4*compressed.
+pub fn compact_parse_any<S: Src>(s: &mut S) {
+    let b: [u8; 65] = s.bytes::<65>();
+    cov!(b[0] < 27, "header<27");
+    cov!(b[0] >= 27 && b[0] <= 30, "uncompressed");
+    cov!(b[0] >= 31 && b[0] <= 34, "compressed");
+    cov!(b[0] > 34, "header>34");
+    let sig = okf(Signature::from_compact_bytes(&b));
+    if b[0] < 27 || b[0] > 34 {
+        assert!(sig.is_none(), "compact header outside 27..=34 accepted");
+    }
+    if let Some(sig) = sig {
+        let back = sig.to_compact_bytes(None);
+        assert!(back.len() == 65, "compact length");
+        let mut i = 0;
+        while i < 65 {
+            assert!(back[i] == b[i], "compact signature does not round-trip (r, s or recovery/compression header changed)");
+            i += 1;
+        }
+        let r = sig.r();
+        let sv = sig.s();
+        assert!(r.len() == 32 && sv.len() == 32);
+        let mut j = 0;
+        while j < 32 {
+            assert!(r[j] == b[1 + j] && sv[j] == b[33 + j], "r()/s() differ from compact bytes");
+            j += 1;
+        }
+        cov!(true, "accepted");
+    }
+    cov!(true, "end");
+}
+
+/// For an accepted signature and each of the 8 RecoveryInfo values: to_compact_bytes(Some(ri))
+/// has header 27 + (x_reduced<<1 | y_odd) + 4*compressed and parses back to the same
+/// (r, s, recovery data, compression marker).
+pub fn compact_recovery_matrix<S: Src>(s: &mut S) {
+    let b: [u8; 65] = s.bytes::<65>();
+    let y = s.bool();
+    let x = s.bool();
+    let c = s.bool();
+    s.assume(b[0] >= 27 && b[0] <= 34);
+    let sig = okf(Signature::from_compact_bytes(&b));
+    if let Some(sig) = sig {
+        let out = sig.to_compact_bytes(Some(RecoveryInfo::new(y, x, c)));
+        let want = 27u8 + ((x as u8) << 1 | (y as u8)) + if c { 4 } else { 0 };
+        assert!(out.len() == 65 && out[0] == want, "compact header is not 27 + recid + 4*compressed");
+        let mut i = 1;
+        while i < 65 {
+            assert!(out[i] == b[i], "r/s changed by to_compact_bytes");
+            i += 1;
+        }
+        let sig2 = okf(Signature::from_compact_bytes(&out));
+        assert!(sig2.is_some(), "own compact serialisation rejected");
+        let out2 = sig2.unwrap().to_compact_bytes(None);
+        let mut k = 0;
+        while k < 65 {
+            assert!(out2[k] == out[k], "recovery data / compression marker lost in compact round trip");
+            k += 1;
+        }
+        cov!(x && y && c, "recid3 compressed");
+        cov!(x && !y && !c, "recid2 uncompressed");
+    }
+    cov!(true, "end");
+}
+
+/// Quick-tier kernel: header/recovery logic over ALL 256 header bytes x 8 RecoveryInfo values with
+/// two symbolic bytes in r and s (the rest fixed), so the 256-bit scalar range checks stay cheap.
+pub fn compact_header_all<S: Src>(s: &mut S) {
+    let h = s.u8();
+    let rb = s.u8();
+    let sb = s.u8();
+    let y = s.bool();
+    let x = s.bool();
+    let c = s.bool();
+    let mut b = [0x11u8; 65];
+    let mut i = 33;
+    while i < 65 {
+        b[i] = 0x22;
+        i += 1;
+    }
+    b[0] = h;
+    b[17] = rb;
+    b[64] = sb;
+    let sig = okf(Signature::from_compact_bytes(&b));
+    let valid_header = h >= 27 && h <= 34;
+    assert!(sig.is_some() == valid_header, "compact header acceptance differs from 27..=34");
+    cov!(h == 29, "recid2 uncompressed");
+    cov!(h == 33, "recid2 compressed");
+    cov!(h == 34, "recid3 compressed");
+    if let Some(sig) = sig {
+        let back = sig.to_compact_bytes(None);
+        assert!(back.len() == 65);
+        let mut k = 0;
+        while k < 65 {
+            assert!(back[k] == b[k], "compact signature does not round-trip (r, s or recovery/compression header changed)");
+            k += 1;
+        }
+        let out = sig.to_compact_bytes(Some(RecoveryInfo::new(y, x, c)));
+        let want = 27u8 + ((x as u8) << 1 | (y as u8)) + if c { 4 } else { 0 };
+        assert!(out.len() == 65 && out[0] == want, "compact header is not 27 + recid + 4*compressed");
+        let sig2 = okf(Signature::from_compact_bytes(&out));
+        assert!(sig2.is_some(), "own compact serialisation rejected");
+        let out2 = sig2.unwrap().to_compact_bytes(None);
+        let mut m = 0;
+        while m < 65 {
+            assert!(out2[m] == out[m], "recovery data / compression marker lost in compact round trip");
+            m += 1;
+        }
+    }
+    cov!(true, "end");
+}
+
+/// from_compact_bytes on a buffer of concrete length L (symbolic content): returns, never panics.
+pub fn compact_len<S: Src, const L: usize>(s: &mut S) {
+    let b: [u8; L] = s.bytes::<L>();
+    let r = okf(Signature::from_compact_bytes(&b));
+    if L != 65 {
+        assert!(r.is_none(), "compact signature of wrong length accepted");
+    }
+    cov!(true, "end");
+}
+
+pub fn register(v: &mut Vec<(&'static str, fn(&mut ReplaySrc))>) {
+    v.push(("c06_compact_parse_any", compact_parse_any::<ReplaySrc>));
+    v.push(("c06_compact_recovery_matrix", compact_recovery_matrix::<ReplaySrc>));
+    v.push(("c06_compact_header_all", compact_header_all::<ReplaySrc>));
+    v.push(("c06_compact_len_0", compact_len::<ReplaySrc, 0>));
+    v.push(("c06_compact_len_1", compact_len::<ReplaySrc, 1>));
+    v.push(("c06_compact_len_33", compact_len::<ReplaySrc, 33>));
+    v.push(("c06_compact_len_64", compact_len::<ReplaySrc, 64>));
+    v.push(("c06_compact_len_66", compact_len::<ReplaySrc, 66>));
+}
+
+#[cfg(kani)]
+mod proofs {
+    use super::*;
+    use crate::KaniSrc;
+
+    #[kani::proof]
+    #[kani::unwind(67)]
+    #[kani::stub(std::fmt::format, crate::stubs::fmt_format)]
+    fn c06_compact_parse_any() {
+        compact_parse_any(&mut KaniSrc)
+    }
+
+    #[kani::proof]
+    #[kani::unwind(67)]
+    #[kani::stub(std::fmt::format, crate::stubs::fmt_format)]
+    fn c06_compact_recovery_matrix() {
+        compact_recovery_matrix(&mut KaniSrc)
+    }
+
+    #[kani::proof]
+    #[kani::unwind(67)]
+    #[kani::stub(std::fmt::format, crate::stubs::fmt_format)]
+    fn c06_compact_header_all() {
+        compact_header_all(&mut KaniSrc)
+    }
+
+    macro_rules! clen {
+        ($name:ident, $l:expr) => {
+            #[kani::proof]
+            #[kani::unwind(67)]
+            #[kani::stub(std::fmt::format, crate::stubs::fmt_format)]
+            fn $name() {
+                compact_len::<KaniSrc, $l>(&mut KaniSrc)
+            }
+        };
+    }
+    clen!(c06_compact_len_0, 0);
+    clen!(c06_compact_len_1, 1);
+    clen!(c06_compact_len_33, 33);
+    clen!(c06_compact_len_64, 64);
+    clen!(c06_compact_len_66, 66);
+}
